@@ -362,8 +362,14 @@ def scenario_templates(rnd):
   T = []
   T.append(("class.mlp_inline", lambda r: base("mlp_inline", {"Dense": _lim3(r), "Activation": [r.choice(BITS[1:])]})))
   T.append(("default_padding.mlp_inline", lambda r: base(
-      "mlp_inline", {"Dense": [r.choice(BITS[1:])], "default": r.choice([3, 4, 6, [4, 6, 3]])},
+      "mlp_inline", {"Dense": [r.choice(BITS[1:])], "default": r.choice([3, 4, 6, [4, 6, 3], [8, 4, 8, 4], [6, 3, 8, 4]])},
       layer_indexes=r.choice([[1, 2, 3], [1, 3, 4, 5], [2, 4]]))))
+  T.append(("default_padding4.mlp_inline", lambda r: base(
+      "mlp_inline", {"Dense": r.choice([[r.choice(BITS[2:])], []]), "Activation": [r.choice(BITS[1:])],
+                     "default": r.choice([[8, 4, 8, 4], [6, 3, 8, 4], [8, 3, 16, 6]])})))
+  T.append(("default_padding4.rnn_dense", lambda r: base(
+      "rnn_dense", {"SimpleRNN": [r.choice(BITS[3:])], "Dense": [r.choice(BITS[3:])],
+                    "default": r.choice([[8, 4, 8, 4], [8, 4, 4, 8]])}, cap=32)))
   T.append(("pattern_group.mlp_branch", lambda r: base(
       "mlp_branch", {"^b0_": _lim3(r), "Dense": _lim3(r), "Activation": [r.choice(BITS[1:])]})))
   T.append(("allow_lists.mlp_branch", lambda r: base("mlp_branch", "ALLOW_LISTS")))
@@ -1011,6 +1017,29 @@ def run_hp(case, ctx):
       if r1 != rt or r2 != rt or d != 0.0:
         ctx.violation({"part": "delta", "kind": "delta_contract", "which": "zero_for_the_reference_model", "route": "bits"},
                       "reference %r, trial(reference model) %r, total %r, delta %r" % (r1, r2, rt, d), None)
+
+    # a stressed reference (stress != 1 shifts the reference the trials are compared with): the size
+    # get_reference() reports is the one delta() must be calibrated against - zero for a trial of exactly
+    # that size, sign and calibration relative to it
+    if rt is not None:
+      from qkeras.autoqkeras.forgiving_metrics import forgiving_factor
+      for stress in (0.5, 2.0):
+        okc, ffs = ctx.call({"part": "delta", "stage": "construct_stressed"}, lambda: forgiving_factor["bits"](
+            delta_p=ffp["delta_p"], delta_n=ffp["delta_n"], rate=ffp["rate"], stress=stress, input_bits=ffp["input_bits"],
+            output_bits=ffp["ref_bits"], ref_bits=ffp["ref_bits"], config=copy.deepcopy(ffp["size_config"])))
+        if not okc:
+          continue
+        ok1, rs1 = ctx.call({"part": "size", "stage": "get_reference"}, ffs.get_reference, ref)
+        ok2, ts1 = ctx.call({"part": "size", "stage": "get_trial"}, ffs.get_trial, ref)
+        if not (ok1 and ok2):
+          continue
+        ctx.count("delta.stressed_reference_checked")
+        d = float(ffs.delta())
+        e = expected_delta(ffp["delta_p"], ffp["delta_n"], ffp["rate"], rs1, ts1)
+        if rs1 != rt * stress or ts1 != rt or abs(d - e) > 1e-6 * abs(e) + 1e-15:
+          ctx.violation({"part": "delta", "kind": "delta_contract", "which": "stressed_reference", "route": "bits"},
+                        "stress %r: get_reference() = %r (size model %r), trial %r, delta %r, calibrated against the reported reference %r" % (
+                            stress, rs1, rt, ts1, d, e), None)
 
   exhaustive = scn["mode"] == "exhaustive"
   first = hpstub.HPStub(script=[], fallback="first" if exhaustive else "default")
